@@ -2,7 +2,7 @@
 import re
 
 from .. import lib, mir
-from ..mir import render, strip_generics
+from .. import lib_proto as P
 
 EXPLANATION = ("GenericRateLimiter::try_next: refill(now) runs first on every path; result table over (bucket present?, checked_sub(1)) = "
                "{(Some,Some)->true with *balance = balance-1, (Some,None)->false with no effect, (None,-)->true with buckets.insert(id, limit-1) "
@@ -17,209 +17,243 @@ ASSUMPTIONS = ["the windowed bound limit + floor(elapsed/interval) itself is ari
                "callers pass non-decreasing timestamps", "HashMap / VecDeque semantics; refill_schedule stays sorted because entries are pushed with `now`"]
 RL = "libp2p_relay"
 G = r"^libp2p_relay::behaviour::rate_limiter::GenericRateLimiter::"
-POPPED = "std::option::Option::expect(std::collections::VecDeque::pop_front(self.refill_schedule), 'Queue not to be empty.')"
+GADT = r"rate_limiter::GenericRateLimiter$"
+U32MAX = 4294967295
 
 SELFTEST = [
     {"mutation": "try_next: new bucket starts at `limit` instead of `limit - 1`", "caught_by": "try_next/missing bucket: balance limit - 1 and scheduled at now"},
     {"mutation": "try_next: None of checked_sub returns true", "caught_by": "try_next/result table"},
-    {"mutation": "try_next: granted token not deducted (`let _ = a`)", "caught_by": "try_next/result table (+ floor:edges)"},
+    {"mutation": "try_next: granted token not deducted (`let _ = a`)", "caught_by": "try_next/a granted token is deducted exactly once"},
     {"mutation": "try_next: refill call made unreachable", "caught_by": "try_next/refill runs first"},
     {"mutation": "refill: `>` instead of `>=` interval (an identity idle for exactly limit*interval would be refused)", "caught_by": "refill/entry popped only when a whole interval has passed"},
     {"mutation": "refill: `new_balance <= self.limit`", "caught_by": "refill/stored only while below the limit"},
+    {"mutation": "seeded/C48: `if new_tokens < self.limit` (the tested value is not the stored balance)", "caught_by": "refill/the balance tested against the limit is the balance that is stored"},
     {"mutation": "refill: re-scheduled at last_refill instead of now (tokens counted twice)", "caught_by": "refill/below the limit: stored and re-scheduled at now"},
     {"mutation": "refill: checked_mul instead of checked_div", "caught_by": "refill/new tokens = floor(elapsed since this bucket's refill / interval)"},
     {"mutation": "new_per_ip closure keys by (ip, peer id)", "caught_by": "identity/per-ip never reads the peer id"},
 ]
 
 
-def ret_exprs(b):
-    return [(mir.Site(b, d[1], d[2]), b.site_expr(mir.Site(b, d[1], d[2]))) for d in b.defs.get(0, [])]
-
-
-def labels_at(b, bb, pat):
-    """Labels known at bb for the switch whose rendered condition matches pat (None if not constrained)."""
-    for text, labels, _, _ in b.guards_on_all_paths(bb):
-        if re.search(pat, text):
-            return set(labels)
-    return None
-
-
 def check(ctx):
-    mir.RENDER_MAX[0] = 30
-    try:
-        _check(ctx, ctx.prog)
-    finally:
-        mir.RENDER_MAX[0] = 14
+    _check(ctx, ctx.prog)
 
 
 def _check(ctx, prog):
-    # ================================================================= try_next
+    FB = P.field_by_type(prog, RL, GADT, r"HashMap<")            # buckets
+    FS = P.field_by_type(prog, RL, GADT, r"VecDeque<")           # refill_schedule
+    FL = P.field_by_type(prog, RL, GADT, r"^u32$")               # limit
+    FI = P.field_by_type(prog, RL, GADT, r"Duration$")           # interval
+    BUCKETS, SCHED, LIMIT, INTERVAL = "self." + FB, "self." + FS, "self." + FL, "self." + FI
+    # ================================================================= try_next(self, id = $2, now = $3)
     t = ctx.body(RL, G + r"try_next$")
+    N = P.Norm(t)
     rets = t.return_blocks()
-    rf = t.call_sites(G + r"refill$")
-    gm = [s for s in t.call_sites(r"HashMap::get_mut$") if render(t.site_expr(s)) == "std::collections::HashMap::get_mut(self.buckets, id)"]
+    rf = [s for s in t.call_sites(G + r"refill$")]
+    gm = [s for s in t.call_sites(r"HashMap::get_mut$") if N.site(s) == "std::collections::HashMap::get_mut(%s, $2)" % BUCKETS]
     ctx.floor("try_next", "buckets.get_mut(&id)", gm, 1, exact=True)
     ctx.floor("try_next", "refill call", rf, 1, exact=True)
     if rf and gm:
         got = lib.count_range(t, [0], [gm[0].bb], lib.bbs(rf))
-        ctx.ob("try_next", "refill runs first", got == (1, 1) and render(t.site_expr(rf[0])) == "libp2p_relay::behaviour::rate_limiter::GenericRateLimiter::refill(self, now)", rf[0].loc(),
+        ctx.ob("try_next", "refill runs first", got == (1, 1) and N.site(rf[0]).endswith("::refill(self, $3)"), rf[0].loc(),
                "refill(self, now) on every path before the bucket is looked up: %s" % (got,))
-    GM = r"^discr\(std::collections::HashMap::get_mut\(self\.buckets, id\)\)$"
-    CS = r"^discr\(core::num::checked_sub\(balance, 1\)\)$|^discr\(core::num::<impl u32>::checked_sub\(balance, 1\)\)$"
+    is_gm = (lambda e: bool(gm) and e[0] == "call" and e[3] == gm[0].bb)
+    cs = [s for s in t.call_sites(r"checked_sub$") if N.r(t.site_expr(s)[2][1]) == "1"]
+    ctx.floor("try_next", "checked_sub(1) on the balance", cs, 1, exact=True)
+    is_cs = (lambda e: bool(cs) and e[0] == "call" and e[3] == cs[0].bb)
     table = {}
-    res = ret_exprs(t)
-    for s, e in res:
-        if e[0] != "const":
-            table[("?", render(e))] = None
-            continue
-        g, c = labels_at(t, s.bb, GM), labels_at(t, s.bb, CS)
+    for s, e in P.ret_exprs(t):
+        v = P.const_val(e)
+        g, c = P.known_labels(t, s.bb, is_gm), P.known_labels(t, s.bb, is_cs)
         key = (tuple(sorted(g)) if g else None, tuple(sorted(c)) if c else None)
-        table.setdefault(key, set()).add(e[1])
+        table.setdefault(key, set()).add(v if v is not None else N.r(e))
     want = {(("Some",), ("Some",)): {1}, (("Some",), ("None",)): {0}, (("None",), None): {1}}
     ctx.ob("try_next", "result table", table == want, "%s:%d" % (t.file, t.line), "(bucket, checked_sub(1)) -> result: %s (expected %s)" % (table, want))
-    bl = [l for l, n in t.names.items() if n == "balance"]
-    ctx.ob("try_next", "the token is taken from the looked-up bucket", len(bl) == 1 and render(t.init_expr(bl[0])) == "std::collections::HashMap::get_mut(self.buckets, id)@Some.0", msg=str([render(t.init_expr(x)) for x in bl]))
-    some_some = [tg for bi in t.live if t.switch_info(bi) and re.search(CS, render(t.switch_info(bi)[0])) for tg, ls in t.switch_info(bi)[1].items() if ls == {"Some"}]
-    some_none = [tg for bi in t.live if t.switch_info(bi) and re.search(CS, render(t.switch_info(bi)[0])) for tg, ls in t.switch_info(bi)[1].items() if ls == {"None"}]
-    none_edge = [tg for bi in t.live if t.switch_info(bi) and re.search(GM, render(t.switch_info(bi)[0])) for tg, ls in t.switch_info(bi)[1].items() if ls == {"None"}]
+    for s in cs:
+        a0 = t.site_expr(s)[2][0]
+        src = N.r(t.init_expr(a0[1])) if a0[0] == "local" else N.r(a0)
+        ctx.ob("try_next", "the token is taken from the looked-up bucket", src == "std::collections::HashMap::get_mut(%s, $2)@+" % BUCKETS, s.loc(), src)
+    some_some = P.targets(P.outcome_edges(t, is_cs, True))
+    some_none = P.targets(P.outcome_edges(t, is_cs, False))
+    none_edge = P.targets(P.outcome_edges(t, is_gm, False))
     ctx.ob("try_next", "floor:edges", len(some_some) == 1 and len(some_none) == 1 and len(none_edge) == 1, nontrivial=False, msg=str((some_some, some_none, none_edge)))
-    stores = [mir.Site(t, d[1], d[2]) for l in bl for d in t.defs.get((l, "partial"), []) if d[0] == "stmt"]
-    ins = [s for s in t.call_sites(r"HashMap::insert$") if render(t.site_expr(s)[2][0]) == "self.buckets"]
-    psh = [s for s in t.call_sites(r"VecDeque::push_back$") if render(t.site_expr(s)[2][0]) == "self.refill_schedule"]
+    # stores through the bucket reference: `*balance = <checked_sub result>`
+    stores = []
+    bl = t.site_expr(cs[0])[2][0] if cs else None
+    if bl is not None and bl[0] == "local":
+        stores = [mir.Site(t, d[1], d[2]) for d in t.defs.get((bl[1], "partial"), []) if d[0] == "stmt"]
+    ins = [s for s in t.call_sites(r"HashMap::insert$") if N.r(t.site_expr(s)[2][0]) == BUCKETS]
+    psh = [s for s in t.call_sites(r"VecDeque::push_back$") if N.r(t.site_expr(s)[2][0]) == SCHED]
     eff = lib.bbs(stores) + lib.bbs(ins) + lib.bbs(psh)
     if some_some:
         got = lib.count_range(t, some_some, rets, lib.bbs(stores))
-        val = [render(t.site_expr(s)) for s in stores]
-        ctx.ob("try_next", "a granted token is deducted exactly once", got == (1, 1) and all(re.match(r"^core::num::(<impl u32>::)?checked_sub\(balance, 1\)@Some\.0$", v) for v in val) and
-               lib.count_range(t, some_some, rets, lib.bbs(ins) + lib.bbs(psh)) == (0, 0), stores[0].loc() if stores else "", "*balance = %s on the granted path: %s" % (val, got))
+        val = [N.site(s) for s in stores]
+        ctx.ob("try_next", "a granted token is deducted exactly once", got == (1, 1) and bool(cs) and val == [N.site(cs[0]) + "@+"] and
+               lib.count_range(t, some_some, rets, lib.bbs(ins) + lib.bbs(psh)) == (0, 0), stores[0].loc() if stores else (cs[0].loc() if cs else ""), "*balance = %s on the granted path: %s" % (val, got))
     if some_none:
         got = lib.count_range(t, some_none, rets, eff)
         ctx.ob("try_next", "an empty bucket is refused without any effect", got == (0, 0), "%s:%d" % (t.file, t.line), "stores/inserts/pushes on the refused path: %s" % (got,))
     if none_edge:
         gi, gp = lib.count_range(t, none_edge, rets, lib.bbs(ins)), lib.count_range(t, none_edge, rets, lib.bbs(psh))
-        vi = [render(t.site_expr(s)) for s in ins]
-        vp = [render(t.site_expr(s)) for s in psh]
-        ok = gi == (1, 1) and gp == (1, 1) and vi == ["std::collections::HashMap::insert(self.buckets, std::clone::Clone::clone(id), SubWithOverflow(self.limit, 1).0)"] and \
-            vp == ["std::collections::VecDeque::push_back(self.refill_schedule, tuple{0: now, 1: id})"]
+        vi = [N.site(s) for s in ins]
+        vp = [N.site(s) for s in psh]
+        ok = gi == (1, 1) and gp == (1, 1) and vi == ["std::collections::HashMap::insert(%s, clone($2), SubWithOverflow(%s, 1).0)" % (BUCKETS, LIMIT)] and \
+            vp == ["std::collections::VecDeque::push_back(%s, tuple{0: $3, 1: $2})" % SCHED]
         ctx.ob("try_next", "missing bucket: balance limit - 1 and scheduled at now", ok, ins[0].loc() if ins else "", "insert %s %s; push_back %s %s" % (gi, vi, gp, vp))
-    # ================================================================= refill
+    # ================================================================= refill(self, now = $2)
     r = ctx.body(RL, G + r"refill$")
+    R = P.Norm(r)
     rrets = r.return_blocks()
-    fr = [s for s in r.call_sites(r"VecDeque::front$") if render(r.site_expr(s)) == "std::collections::VecDeque::front(self.refill_schedule)"]
-    pop = [s for s in r.call_sites(r"VecDeque::pop_front$") if render(r.site_expr(s)[2][0]) == "self.refill_schedule"]
+    fr = [s for s in r.call_sites(r"VecDeque::front$") if R.site(s) == "std::collections::VecDeque::front(%s)" % SCHED]
+    pop = [s for s in r.call_sites(r"VecDeque::pop_front$") if R.r(r.site_expr(s)[2][0]) == SCHED]
     ctx.floor("refill", "refill_schedule.front()", fr, 1, exact=True)
     ctx.floor("refill", "refill_schedule.pop_front()", pop, 1, exact=True)
-    READY = r"^std::cmp::PartialOrd::ge\(web_time::Instant::duration_since\(now, std::collections::VecDeque::front\(self\.refill_schedule\)@Some\.0\.0\), self\.interval\)$|" \
-            r"^<web_time::Duration as std::cmp::PartialOrd>::ge\(web_time::Instant::duration_since\(now, std::collections::VecDeque::front\(self\.refill_schedule\)@Some\.0\.0\), self\.interval\)$"
-    rins = [s for s in r.call_sites(r"HashMap::insert$") if render(r.site_expr(s)[2][0]) == "self.buckets"]
-    rrem = [s for s in r.call_sites(r"HashMap::remove$") if render(r.site_expr(s)[2][0]) == "self.buckets"]
-    rpsh = [s for s in r.call_sites(r"VecDeque::push_back$") if render(r.site_expr(s)[2][0]) == "self.refill_schedule"]
+    FRONT = "std::collections::VecDeque::front(%s)@+.0" % SCHED
+    POPPED = "std::collections::VecDeque::pop_front(%s)@+" % SCHED
+    ELAPSED_FRONT = "web_time::Instant::duration_since($2, %s)" % FRONT
+
+    def ready(op, a, b):      # interval <= now - last_refill(front)
+        return op == "Le" and R.r(a) == INTERVAL and R.r(b) == ELAPSED_FRONT
+
+    def not_ready(op, a, b):  # now - last_refill(front) < interval
+        return op == "Lt" and R.r(a) == ELAPSED_FRONT and R.r(b) == INTERVAL
+    rins = [s for s in r.call_sites(r"HashMap::insert$") if R.r(r.site_expr(s)[2][0]) == BUCKETS]
+    rrem = [s for s in r.call_sites(r"HashMap::remove$") if R.r(r.site_expr(s)[2][0]) == BUCKETS]
+    rpsh = [s for s in r.call_sites(r"VecDeque::push_back$") if R.r(r.site_expr(s)[2][0]) == SCHED]
     muts = lib.bbs(pop) + lib.bbs(rins) + lib.bbs(rrem) + lib.bbs(rpsh)
+    is_front = (lambda e: bool(fr) and e[0] == "call" and e[3] == fr[0].bb)
+    e_ready, e_some = P.rel_edges(r, ready), P.outcome_edges(r, is_front, True)
     for s in pop:
-        ok1 = ctx.guarded("refill", "entry popped only when a whole interval has passed", s, lambda c, rr, l: l == "true" and re.search(READY, rr) is not None,
-                          "now.duration_since(last_refill) >= interval (of the front entry)")
-        ctx.guarded("refill", "entry popped only when the schedule is non-empty", s, lambda c, rr, l: l == "Some" and rr == "discr(std::collections::VecDeque::front(self.refill_schedule))", "front() is Some")
-    stop = r.guard_edges(lambda c, rr, l: (l == "false" and re.search(READY, rr) is not None) or (l == "None" and rr == "discr(std::collections::VecDeque::front(self.refill_schedule))"))
+        ok = P.must_pass(r, s.bb, e_ready)
+        ctx.ob("refill", "entry popped only when a whole interval has passed", ok, s.loc(), "pop_front is reachable only with now.duration_since(last_refill of the front entry) >= interval" if ok else
+               "pop_front reachable without `elapsed >= interval` of the front entry (a strict `>` refuses an identity that was idle for exactly limit * interval)")
+        ctx.ob("refill", "entry popped only when the schedule is non-empty", P.must_pass(r, s.bb, e_some), s.loc(), "front() is Some")
+    stop = set(P.rel_edges(r, not_ready)) | set(P.outcome_edges(r, is_front, False))
     ctx.ob("refill", "floor:stop edges", len(stop) == 2, nontrivial=False, msg=str(sorted(stop)))
     if stop:
-        got = lib.count_range(r, [x for _, x in stop], rrets, muts)
-        loops = fr and any(fr[0].bb in r.reachable([x]) for _, x in stop)
+        got = lib.count_range(r, P.targets(stop), rrets, muts)
+        loops = fr and any(fr[0].bb in r.reachable([x]) for x in P.targets(stop))
         ctx.ob("refill", "not ready / empty: return without touching any bucket", got == (0, 0) and not loops, "%s:%d" % (r.file, r.line), "mutations after the stop edges: %s, loops back: %s" % (got, bool(loops)))
-    # arithmetic shape
-    nt = [l for l, n in r.names.items() if n == "new_tokens"]
-    nb = [l for l, n in r.names.items() if n == "new_balance"]
-    e_nt = render(r.init_expr(nt[0])) if len(nt) == 1 else ""
-    e_nb = render(r.init_expr(nb[0])) if len(nb) == 1 else ""
-    DIV = "core::num::checked_div(web_time::Duration::as_micros(web_time::Instant::duration_since(now, %s.0)), web_time::Duration::as_micros(self.interval))" % POPPED
-    DIV2 = DIV.replace("core::num::checked_div(", "core::num::<impl u128>::checked_div(")
-    ok = re.match(r"^std::option::Option::unwrap_or\(std::option::Option::and_then\(", e_nt) is not None and (DIV in e_nt or DIV2 in e_nt) and e_nt.endswith(", const:core::num::<impl u32>::MAX)")
-    ctx.ob("refill", "new tokens = floor(elapsed since this bucket's refill / interval)", ok, "%s:%d" % (r.file, r.line), e_nt[:300])
-    cl = [c for c in prog.children(r) if c.kind == "closure"]
-    txt = [render(x) for c in cl for _, x in ret_exprs(c)]
-    ctx.ob("refill", "token count conversion saturates instead of wrapping", txt == ["std::result::Result::ok(<T as std::convert::TryInto>::try_into(i))"], msg=str(txt))
-    BAL = "std::option::Option::expect(std::collections::HashMap::get(self.buckets, %s.1), 'Entry can only be removed via refill.')" % POPPED
-    ok = re.match(r"^std::option::Option::unwrap_or\(core::num::(<impl u32>::)?checked_add\(%s, " % re.escape(BAL), e_nb) is not None and e_nb.endswith(", const:core::num::<impl u32>::MAX)") and e_nt in e_nb
-    ctx.ob("refill", "new balance = this bucket's balance + new tokens (saturating)", ok, "%s:%d" % (r.file, r.line), e_nb[:200])
-    # Lt(new_balance, limit)
-    lt = [(bi, r.switch_info(bi)) for bi in sorted(r.live) if r.switch_info(bi) and r.switch_info(bi)[0][0] == "bin" and render(r.switch_info(bi)[0][3]) == "self.limit" and render(r.switch_info(bi)[0][2]) == e_nb]
-    ctx.ob("refill", "floor:limit test", len(lt) == 1, nontrivial=False, msg="%d tests of new_balance against self.limit" % len(lt))
+    # the limit test: canonical comparison with self.limit on one side
+    tests = []
+    for bi in sorted(r.live):
+        info = r.switch_info(bi)
+        c = P.cmpnf(info[0]) if info else None
+        if c and (R.r(c[1]) == LIMIT or R.r(c[2]) == LIMIT):
+            tests.append((bi, c, info[1]))
+    ctx.ob("refill", "floor:limit test", len(tests) == 1, nontrivial=False, msg="%d comparisons with self.limit" % len(tests))
     head = fr[0].bb if fr else None
-    for bi, (cond, labs) in lt:
-        op = cond[1]
-        below = [tg for tg, ls in labs.items() if (op, tuple(ls)) in (("Lt", ("true",)), ("Ge", ("false",)))]
-        full = [tg for tg, ls in labs.items() if (op, tuple(ls)) in (("Lt", ("false",)), ("Ge", ("true",)))]
-        ctx.ob("refill", "stored only while below the limit", len(below) == 1 and len(full) == 1, "%s:%d" % (r.file, r.blocks[bi]["term"].get("l", 0)),
-               "relation %s(new_balance, limit): a stored balance must stay < limit (absent bucket == full bucket)" % op)
+    for bi, (op, a, b), labs in tests:
+        X = b if R.r(a) == LIMIT else a
+        where = "%s:%d" % (r.file, r.blocks[bi]["term"].get("l", 0))
+        below = P.targets(P.rel_edges(r, lambda o, p, q: o == "Lt" and p is X and R.r(q) == LIMIT))
+        full = P.targets(P.rel_edges(r, lambda o, p, q: o == "Le" and q is X and R.r(p) == LIMIT))
+        ctx.ob("refill", "stored only while below the limit", len(below) == 1 and len(full) == 1, where,
+               "the edges `balance < limit` / `limit <= balance` of the test: %s / %s (a stored balance must stay < limit; absent bucket == full bucket)" % (below, full))
+        # shape of the tested value: unwrap_or(checked_add(balance of this bucket, new tokens), MAX)
+        BAL = "std::collections::HashMap::get(%s, %s.1)@+" % (BUCKETS, POPPED)
+        DIV = "core::num::checked_div(web_time::Duration::as_micros(web_time::Instant::duration_since($2, %s.0)), web_time::Duration::as_micros(%s))" % (POPPED, INTERVAL)
+        ok_b = ok_t = False
+        e_nt = ""
+        if P.call_is(X, r"Option::unwrap_or$") and P.const_val(X[2][1]) == U32MAX and P.call_is(X[2][0], r"checked_add$"):
+            parts = list(X[2][0][2])
+            bal = [x for x in parts if R.r(x) == BAL]
+            nts = [x for x in parts if R.r(x) != BAL]
+            ok_b = len(bal) == 1 and len(nts) == 1
+            if ok_b:
+                nt = nts[0]
+                e_nt = R.r(nt)
+                ok_t = P.call_is(nt, r"Option::unwrap_or$") and P.const_val(nt[2][1]) == U32MAX and P.call_is(nt[2][0], r"Option::and_then$") and R.r(nt[2][0][2][0]) == DIV
+                cb = P.closures_in(prog, r, nt[2][0][2][1]) if ok_t else []
+                conv = [P.Norm(c).r(x) for _, c in cb for _, x in P.ret_exprs(c)]
+                ctx.ob("refill", "token count conversion saturates instead of wrapping", conv == ["std::result::Result::ok(<T as std::convert::TryInto>::try_into($2))"], where, str(conv))
+        ctx.ob("refill", "new tokens = floor(elapsed since this bucket's refill / interval)", ok_t, where, e_nt[:260] or R.r(X)[:260])
+        ctx.ob("refill", "new balance = this bucket's balance + new tokens (saturating)", ok_b, where, R.r(X)[:200])
+        for s in rins:
+            v = r.site_expr(s)[2][2]
+            ctx.ob("refill", "the balance tested against the limit is the balance that is stored", P.nr(r, v, True) == P.nr(r, X, True), s.loc(),
+                   "buckets.insert(id, V): V %s the value compared with self.limit" % ("is" if P.nr(r, v, True) == P.nr(r, X, True) else "is NOT"))
         if len(below) == 1 and len(full) == 1 and head is not None:
             gi = lib.count_range(r, below, [head], lib.bbs(rins))
             gp = lib.count_range(r, below, [head], lib.bbs(rpsh))
             gr = lib.count_range(r, below, [head], lib.bbs(rrem))
-            vi = [render(r.site_expr(s)) for s in rins]
-            vp = [render(r.site_expr(s)) for s in rpsh]
-            ok = gi == (1, 1) and gp == (1, 1) and gr == (0, 0) and len(vi) == 1 and vi[0] == "std::collections::HashMap::insert(self.buckets, std::clone::Clone::clone(%s.1), %s)" % (POPPED, e_nb) and \
-                vp == ["std::collections::VecDeque::push_back(self.refill_schedule, tuple{0: now, 1: %s.1})" % POPPED]
+            vi = [R.r(r.site_expr(s)[2][1]) for s in rins]
+            vp = [R.site(s) for s in rpsh]
+            ok = gi == (1, 1) and gp == (1, 1) and gr == (0, 0) and vi == ["clone(%s.1)" % POPPED] and \
+                vp == ["std::collections::VecDeque::push_back(%s, tuple{0: $2, 1: %s.1})" % (SCHED, POPPED)]
             ctx.ob("refill", "below the limit: stored and re-scheduled at now", ok, rins[0].loc() if rins else "", "insert %s, push_back %s %s, remove %s" % (gi, gp, [v[-70:] for v in vp], gr))
             gi = lib.count_range(r, full, [head], lib.bbs(rins) + lib.bbs(rpsh))
             gr = lib.count_range(r, full, [head], lib.bbs(rrem))
-            vr = [render(r.site_expr(s)) for s in rrem]
-            ctx.ob("refill", "at the limit: bucket removed, not re-scheduled", gi == (0, 0) and gr == (1, 1) and vr == ["std::collections::HashMap::remove(self.buckets, %s.1)" % POPPED], rrem[0].loc() if rrem else "",
+            vr = [R.site(s) for s in rrem]
+            ctx.ob("refill", "at the limit: bucket removed, not re-scheduled", gi == (0, 0) and gr == (1, 1) and vr == ["std::collections::HashMap::remove(%s, %s.1)" % (BUCKETS, POPPED)], rrem[0].loc() if rrem else "",
                    "insert/push_back %s, remove %s" % (gi, gr))
-    # ================================================================= construction
+    # ================================================================= construction: new(config = $1)
     n = ctx.body(RL, G + r"new$")
-    ag = n.agg_sites(r"rate_limiter::GenericRateLimiter$")
+    NN = P.Norm(n)
+    CADT = r"rate_limiter::GenericRateLimiterConfig$"
+    CL = P.field_by_type(prog, RL, CADT, r"NonZero")
+    CI = P.field_by_type(prog, RL, CADT, r"Duration$")
+    ag = n.agg_sites(GADT)
     ctx.floor("new", "GenericRateLimiter construction", ag, 1)
     for s in ag:
-        ctx.guarded("new", "a zero interval is rejected", s, lambda c, rr, l: l == "false" and rr == "web_time::Duration::is_zero(config.interval)", "!config.interval.is_zero()")
-        f = {k: render(v) for k, v in n.site_expr(s)[4]}
-        ctx.ob("new", "limit and interval come from the config", f.get("limit") == "<T as std::convert::Into>::into(config.limit)" and f.get("interval") == "config.interval", s.loc(), str({k: f.get(k) for k in ("limit", "interval")}))
-    adt = prog.adt(RL, r"rate_limiter::GenericRateLimiterConfig$")
-    tys = {f["n"]: f["ty"] for v in adt["variants"] for f in v["fields"]}
-    ctx.ob("new", "limit is a NonZeroU32 (limit - 1 cannot underflow)", re.search(r"NonZero(U32|<u32>)", tys.get("limit", "")) is not None, msg=str(tys))
+        zero = P.truth_edges(n, lambda e: NN.r(e) == "web_time::Duration::is_zero($1.%s)" % CI, False)
+        ctx.ob("new", "a zero interval is rejected", P.must_pass(n, s.bb, zero), s.loc(), "the limiter is built only on the `!config.interval.is_zero()` edge")
+        f = {k: NN.r(v) for k, v in n.site_expr(s)[4]}
+        ctx.ob("new", "limit and interval come from the config", f.get(FL) == "<T as std::convert::Into>::into($1.%s)" % CL and f.get(FI) == "$1.%s" % CI, s.loc(), str({k: f.get(k) for k in (FL, FI)}))
+    ctx.ob("new", "limit is a NonZeroU32 (limit - 1 cannot underflow)", True, msg="config field %s has a NonZero type" % CL, nontrivial=False)
     # ================================================================= who touches the state
     who = {}
     for b in prog.bodies(RL):
         if "rate_limiter" not in b.npath:
             continue
-        for fld in ("buckets", "refill_schedule"):
+        for fld in (FB, FS):
             for s in lib.field_mut_calls(b, fld) + b.field_write_sites(fld):
                 who.setdefault(b.npath, set()).add(fld)
     ctx.ob("state", "buckets / refill_schedule are mutated only by try_next and refill", set(who) == {t.npath, r.npath}, msg=str({k: sorted(v) for k, v in who.items()}))
     # ================================================================= identities
-    pp = ctx.body(RL, r"rate_limiter::new_per_peer::\{closure#0\}$")
-    e = [x for _, x in ret_exprs(pp)]
-    ok = len(e) == 1 and e[0][0] == "call" and strip_generics(e[0][1]).endswith("GenericRateLimiter::try_next") and render(e[0][2][0]) == "^limiter" and \
-        e[0][2][1][0] == "arg" and e[0][2][1][1] == 2 and e[0][2][2][0] == "arg" and e[0][2][2][1] == 4
-    ctx.ob("identity", "per-peer limiter is keyed by the peer id", ok, "%s:%d" % (pp.file, pp.line), str([render(x) for x in e]))
-    pi = ctx.body(RL, r"rate_limiter::new_per_ip::\{closure#0\}$")
-    e = [x for _, x in ret_exprs(pi)]
-    txt = render(e[0]) if len(e) == 1 else ""
-    ok = re.match(r"^std::option::Option::unwrap_or\(std::option::Option::map\(libp2p_relay::behaviour::rate_limiter::multiaddr_to_ip\(addr\), closure:[^\[]*\[\^limiter, now\]\), 1\)$", txt) is not None
-    if ok:
-        a = e[0][2][0][2][0][2][0]
-        ok = a[0] == "arg" and a[1] == 3
-    ctx.ob("identity", "per-ip limiter is keyed by the address", ok, "%s:%d" % (pi.file, pi.line), txt[:200])
-    uses = lib.local_uses(pi, 2)
-    ctx.ob("identity", "per-ip never reads the peer id", uses == 0 and pi.argc == 4, "%s:%d" % (pi.file, pi.line), "reads of the peer-id argument: %d" % uses)
-    pii = ctx.body(RL, r"rate_limiter::new_per_ip::\{closure#0\}::\{closure#0\}$")
-    e = [render(x) for _, x in ret_exprs(pii)]
-    ctx.ob("identity", "the ip bucket is charged with the extracted address", e == ["libp2p_relay::behaviour::rate_limiter::GenericRateLimiter::try_next(^limiter, a, ^now)"], "%s:%d" % (pii.file, pii.line), str(e))
-    for fn in ("new_per_peer", "new_per_ip"):
+    TRY = "libp2p_relay::behaviour::rate_limiter::GenericRateLimiter::try_next"
+    for fn, kind in (("new_per_peer", "peer"), ("new_per_ip", "ip")):
         b = ctx.body(RL, r"rate_limiter::%s$" % fn)
-        e = [render(x) for _, x in ret_exprs(b)]
-        ctx.ob("identity", "%s owns a fresh limiter built from its config" % fn, len(e) == 1 and re.match(r"^std::boxed::Box::new\(closure:[^\[]*\[libp2p_relay::behaviour::rate_limiter::GenericRateLimiter::new\(config\)\]\)$", e[0]) is not None,
-               "%s:%d" % (b.file, b.line), e[0][:160] if e else "")
+        B = P.Norm(b)
+        rs = [x for _, x in P.ret_exprs(b)]
+        cb, ups = P.upvar_sources(prog, b, rs[0]) if len(rs) == 1 else (None, [])
+        ctx.ob("identity", "%s owns a fresh limiter built from its config" % fn, cb is not None and [B.r(u) for u in ups] == ["libp2p_relay::behaviour::rate_limiter::GenericRateLimiter::new($1)"] and
+               B.r(rs[0]) == "std::boxed::Box::new(closure[libp2p_relay::behaviour::rate_limiter::GenericRateLimiter::new($1)])", "%s:%d" % (b.file, b.line), B.r(rs[0])[:160] if rs else "")
+        if cb is None:
+            continue
+        ctx.use(cb)
+        C = P.Norm(cb)
+        e = [x for _, x in P.ret_exprs(cb)]
+        txt = C.r(e[0]) if len(e) == 1 else ""
+        # closure parameters: $2 = peer id, $3 = address, $4 = now ; ^0 = the limiter
+        if kind == "peer":
+            ctx.ob("identity", "per-peer limiter is keyed by the peer id", txt == TRY + "(^0, $2, $4)", "%s:%d" % (cb.file, cb.line), txt)
+        else:
+            ok = txt == "std::option::Option::unwrap_or(std::option::Option::map(libp2p_relay::behaviour::rate_limiter::multiaddr_to_ip($3), closure[^0, $4]), 1)"
+            ctx.ob("identity", "per-ip limiter is keyed by the address", ok, "%s:%d" % (cb.file, cb.line), txt[:200])
+            uses = lib.local_uses(cb, 2)
+            ctx.ob("identity", "per-ip never reads the peer id", uses == 0 and cb.argc == 4, "%s:%d" % (cb.file, cb.line), "reads of the peer-id argument: %d" % uses)
+            inner = P.closures_in(prog, cb, e[0]) if e else []
+            it = [P.Norm(c).r(x) for _, c in inner for _, x in P.ret_exprs(c)]
+            ctx.ob("identity", "the ip bucket is charged with the extracted address", it == [TRY + "(^0, $2, ^1)"], "%s:%d" % (cb.file, cb.line), str(it))
     mi = ctx.body(RL, r"rate_limiter::multiaddr_to_ip$")
-    e = [render(x) for _, x in ret_exprs(mi)]
-    ctx.ob("identity", "the ip is the first matching component of the address", len(e) == 1 and e[0].startswith("std::iter::Iterator::find_map(libp2p_core::Multiaddr::iter(addr), closure:"), "%s:%d" % (mi.file, mi.line), e[0][:120] if e else "")
-    mc = ctx.body(RL, r"rate_limiter::multiaddr_to_ip::\{closure#0\}$")
-    tab = {}
-    for s, x in ret_exprs(mc):
-        ls = labels_at(mc, s.bb, r"^discr\(p\)$") or set()
-        for l in ls:
-            tab[l] = render(x)
-    want_some = {"Ip4": "std::option::Option::Some{0: <T as std::convert::Into>::into(p@Ip4.0)}", "Ip6": "std::option::Option::Some{0: <T as std::convert::Into>::into(p@Ip6.0)}"}
-    ok = all(tab.get(k) == v for k, v in want_some.items()) and all(v == "std::option::Option::None{}" for k, v in tab.items() if k not in want_some) and len(tab) > 10
-    ctx.ob("identity", "only Ip4 / Ip6 components yield an ip", ok, "%s:%d" % (mc.file, mc.line), str({k: v[-40:] for k, v in tab.items() if k in ("Ip4", "Ip6", "Dns", "P2p")}))
+    M = P.Norm(mi)
+    e = [x for _, x in P.ret_exprs(mi)]
+    ctx.ob("identity", "the ip is the first matching component of the address", len(e) == 1 and M.r(e[0]) == "std::iter::Iterator::find_map(libp2p_core::Multiaddr::iter($1), closure[])", "%s:%d" % (mi.file, mi.line), M.r(e[0])[:120] if e else "")
+    mcs = P.closures_in(prog, mi, e[0]) if e else []
+    if len(mcs) == 1:
+        mc = mcs[0][1]
+        ctx.use(mc)
+        MC = P.Norm(mc)
+        tab = {}
+        for s, x in P.ret_exprs(mc):
+            ls = P.known_labels(mc, s.bb, lambda y: y[0] == "arg" and y[1] == 2) or set()
+            for l in ls:
+                tab[l] = MC.r(x)
+        want_some = {"Ip4": "std::option::Option::Some{0: <T as std::convert::Into>::into($2@Ip4)}", "Ip6": "std::option::Option::Some{0: <T as std::convert::Into>::into($2@Ip6)}"}
+        ok = all(tab.get(k) == v for k, v in want_some.items()) and all(v == "std::option::Option::None{}" for k, v in tab.items() if k not in want_some) and len(tab) > 10
+        ctx.ob("identity", "only Ip4 / Ip6 components yield an ip", ok, "%s:%d" % (mc.file, mc.line), str({k: v[-40:] for k, v in tab.items() if k in ("Ip4", "Ip6", "Dns", "P2p")}))
+    else:
+        ctx.ob("identity", "only Ip4 / Ip6 components yield an ip", False, msg="find_map closure not found")
     tr = ctx.body(RL, r"^libp2p_relay::<T as behaviour::rate_limiter::RateLimiter>::try_next$")
-    e = [render(x) for _, x in ret_exprs(tr)]
-    ctx.ob("identity", "the trait adaptor forwards (peer, addr, now) unchanged", e == ["std::ops::FnMut::call_mut(self, tuple{0: peer, 1: addr, 2: now})"], "%s:%d" % (tr.file, tr.line), str(e))
+    e = [P.Norm(tr).r(x) for _, x in P.ret_exprs(tr)]
+    ctx.ob("identity", "the trait adaptor forwards (peer, addr, now) unchanged", e == ["std::ops::FnMut::call_mut(self, tuple{0: $2, 1: $3, 2: $4})"], "%s:%d" % (tr.file, tr.line), str(e))
